@@ -25,19 +25,29 @@ def case_dir():
     return d
 
 
+def _engine(name):
+    if name == "bufworld":
+        from .bufworld import BufWorld
+        return BufWorld
+    return World
+
+
+def _wkw(cfg):
+    return {k: v for k, v in cfg.items()
+            if k in ("check_outcome", "check_resource", "check_frozen", "excl")}
+
+
 def world_from_case(case, directory):
     cfg = case["cfg"]
     ci = CLASSES[case["class"]]
     docs = [ABSENT if d == "$ABSENT" else dec(d) for d in cfg["docs"]]
-    return World(ci, directory, initial_docs=docs,
-                 check_outcome=cfg.get("check_outcome", True),
-                 check_resource=cfg.get("check_resource", True))
+    return _engine(case.get("engine"))(ci, directory, initial_docs=docs, **_wkw(cfg))
 
 
-def make_case(prop, ci, docs, steps, **cfg):
+def make_case(prop, ci, docs, steps, engine="world", **cfg):
     return {
         "property": prop,
-        "engine": "world",
+        "engine": engine,
         "class": ci.name,
         "cfg": {"docs": ["$ABSENT" if d is ABSENT else enc(d) for d in docs], **cfg},
         "steps": steps,
@@ -65,14 +75,13 @@ def replay_world(case, final=True, post=None):
         shutil.rmtree(d, ignore_errors=True)
 
 
-def run_generated(prop, ci, docs, gen_step, draw, max_steps, final=True, post=None, **cfg):
+def run_generated(prop, ci, docs, gen_step, draw, max_steps, final=True, post=None,
+                  engine="world", **cfg):
     """Generate and execute one case step by step. Returns the finished world."""
     d = case_dir()
     reset_class_state()
     try:
-        w = World(ci, d, initial_docs=copy.deepcopy(docs),
-                  check_outcome=cfg.get("check_outcome", True),
-                  check_resource=cfg.get("check_resource", True))
+        w = _engine(engine)(ci, d, initial_docs=copy.deepcopy(docs), **_wkw(cfg))
         n = draw(st.integers(1, max_steps))
         try:
             for _ in range(n):
@@ -85,7 +94,8 @@ def run_generated(prop, ci, docs, gen_step, draw, max_steps, final=True, post=No
             if post:
                 post(w)
         except Mismatch as mm:
-            raise CaseFailure(make_case(prop, ci, docs, list(w.log), **cfg), mm.describe())
+            raise CaseFailure(make_case(prop, ci, docs, list(w.log), engine=engine, **cfg),
+                              mm.describe())
         return w
     finally:
         reset_class_state()
